@@ -102,6 +102,7 @@ structure Chain where
   legacyRlpDisabled : Bool
   strictTx : Bool            -- repaired code: bytes must be the canonical marshalling
   strictKey : Bool           -- repaired code: public key must be in canonical encoding
+  vesting : List (Bytes × Nat × Nat × Nat) := []   -- terms of the vesting tranche an account received (start, cliff, end)
   index : List Bytes          -- hashes under which included transactions can be looked up
   accounts : List Account
   deriving Repr
@@ -120,17 +121,21 @@ structure SendC where
   fromAddr : Bytes
   toAddr : Bytes
   amount : Nat
-  vesting : Bool      -- any vesting field non-zero (outside the model)
+  vs : Nat := 0       -- vesting_start_height
+  vc : Nat := 0       -- vesting_cliff_height
+  ve : Nat := 0       -- vesting_end_height
   deriving DecidableEq, Repr
+
+def SendC.hasVesting (s : SendC) : Bool := s.vs != 0 || s.vc != 0 || s.ve != 0
 
 def applySend (s : SendC) (f : Field) : SendC :=
   match f.num, f.val with
   | 1, .len b => { s with fromAddr := b }
   | 2, .len b => { s with toAddr := b }
   | 3, .varint n => { s with amount := n }
-  | 4, .varint n => { s with vesting := s.vesting || n != 0 }
-  | 5, .varint n => { s with vesting := s.vesting || n != 0 }
-  | 6, .varint n => { s with vesting := s.vesting || n != 0 }
+  | 4, .varint n => { s with vs := n }
+  | 5, .varint n => { s with vc := n }
+  | 6, .varint n => { s with ve := n }
   | _, _ => s
 
 def slash : UInt8 := 47
@@ -152,11 +157,12 @@ def checkSend (a : AnyC) : Except Rej SendC :=
   else match parse a.value with
     | none => .error .msg
     | some fs =>
-      let s := fs.foldl applySend ⟨[], [], 0, false⟩
-      if s.vesting then .error .unsupported
-      else if s.fromAddr.length != 20 then .error .msg
+      let s := fs.foldl applySend ⟨[], [], 0, 0, 0, 0⟩
+      if s.fromAddr.length != 20 then .error .msg
       else if s.toAddr.length != 20 then .error .msg
       else if s.amount == 0 then .error .msg
+      -- `MessageSend.Check`: a vesting schedule, if any, is start < end with the cliff in between
+      else if s.hasVesting && (s.ve <= s.vs || s.vc < s.vs || s.ve < s.vc) then .error .msg
       else .ok s
 
 /-! ## `Transaction.CheckBasic` -/
@@ -282,23 +288,46 @@ def accepted (e : Env) (c : Chain) (raw : Bytes) : Bool :=
 
 /-! ## execution (`ApplyTransaction` for a send) and `ApplyTransactions` -/
 
+/-- the vesting terms recorded for an account -/
+def Chain.vestingOf (c : Chain) (a : Bytes) : Option (Nat × Nat × Nat) := (c.vesting.find? (·.1 == a)).map (·.2)
+
+/-- a second tranche with other terms than the recorded one -/
+def Chain.vestingConflict (c : Chain) (s : SendC) : Bool :=
+  s.hasVesting && (match c.vestingOf s.toAddr with
+    | some t => t != (s.vs, s.vc, s.ve)
+    | none => false)
+
+/-- remember the terms of the first vesting tranche an account receives -/
+def Chain.noteVesting (c : Chain) (s : SendC) : Chain :=
+  if s.hasVesting && (c.vestingOf s.toAddr).isNone
+  then { c with vesting := (s.toAddr, s.vs, s.vc, s.ve) :: c.vesting } else c
+
+/-- fee, debit, credit, and — for RLP.V2 — the nonce floor -/
+def applyTransfer (c : Chain) (k : Checked) : Except Rej Chain :=
+  let s := c.account k.sender
+  if s.balance < k.tx.fee then .error .funds
+  else
+    let c := c.setAccount { s with balance := s.balance - k.tx.fee }
+    let s := c.account k.send.fromAddr
+    if s.balance < k.send.amount then .error .funds
+    else
+      let c := c.setAccount { s with balance := s.balance - k.send.amount }
+      let r := c.account k.send.toAddr
+      let c := c.setAccount { r with balance := r.balance + k.send.amount }
+      if k.tx.memo == rlpV2Memo then
+        let s := c.account k.sender
+        .ok (c.setAccount { s with nonce := k.tx.nonce + 1 })
+      else .ok c
+
+/-- A send with a vesting schedule (`AccountAddWithVesting`) credits the recipient like a plain send;
+the model does not track how much of a tranche is still locked (senders in the driver's scenarios
+never spend locked funds), and answers `unsupported` when a second tranche with OTHER terms arrives
+(the code then decides by the locked remainder: `ErrIncompatibleVesting`). Receiving a send — plain
+or vesting — never touches the recipient's nonce. -/
 def applyChecked (c : Chain) (k : Checked) : Except Rej Chain :=
   if maxUint64 - k.tx.fee < k.send.amount then .error .msg
-  else
-    let s := c.account k.sender
-    if s.balance < k.tx.fee then .error .funds
-    else
-      let c := c.setAccount { s with balance := s.balance - k.tx.fee }
-      let s := c.account k.send.fromAddr
-      if s.balance < k.send.amount then .error .funds
-      else
-        let c := c.setAccount { s with balance := s.balance - k.send.amount }
-        let r := c.account k.send.toAddr
-        let c := c.setAccount { r with balance := r.balance + k.send.amount }
-        if k.tx.memo == rlpV2Memo then
-          let s := c.account k.sender
-          .ok (c.setAccount { s with nonce := k.tx.nonce + 1 })
-        else .ok c
+  else if c.vestingConflict k.send then .error .unsupported
+  else applyTransfer (c.noteVesting k.send) k
 
 /-- the hashes under which an included transaction is indexed (`store.indexedTxHashes`) -/
 def indexedHashes (e : Env) (raw : Bytes) (t : TxContent) : List Bytes :=
